@@ -44,6 +44,10 @@ def protected(node) -> bool:
     return flag is not None and not bool(flag)
 
 
+class EntityLost(Exception):
+    """An entity of the reference model is not found in the live workspace any more."""
+
+
 class OpError(Exception):
     """A library exception on an operation that is valid by construction."""
 
@@ -212,6 +216,8 @@ class World:
 
     def entity(self, uid: str):
         ent = self.ws.get_entity(uuid.UUID(uid))[0]
+        if ent is None and uid in self.nodes:
+            raise EntityLost(uid, self.nodes[uid].get("cls", "?"))
         return ent
 
     def of_kind(self, *kinds):
@@ -325,7 +331,7 @@ class TreeRun:
 
     def run_ops(self, start, stop):
         for i in range(start, stop):
-            if self.stopped:
+            if self.stopped or getattr(self, "truncated", False):
                 break
             self.step = i
             self.run_op(self.program["ops"][i])
@@ -348,6 +354,18 @@ class TreeRun:
             self.iso_before = [(set(wd.nodes), node_digests(rawsnap(wd.ws.geoh5))) for wd in self.worlds]
         try:
             effective = handler(op)
+        except EntityLost as exc:
+            # the library lost track of an entity that nothing removed: a verdict, not a harness fault
+            uid, cls = exc.args
+            self.fail("C01", "entity-lost-live", kind, cls, "", f"{cls} {uid} of the model is not found in the live workspace any more")
+            self.fail("C06", "lookup-misses-owner", kind, cls, "", f"get_entity({uid}) returns nothing although the {cls} was never removed")
+            self.res.label("entity-lost-live")
+            self.stopped = True
+            if "C02" in self.props:
+                # the file written so far is still a file the library wrote: close it and look at it
+                self.stopped = False
+                self.truncated = True
+            return
         except OpError as exc:
             self.stats["op_errors"] += 1
             self.res.count("op_errors")
@@ -526,6 +544,16 @@ class TreeRun:
         node = snap_entity(new)
         self.check_created(wd, uid, node, op["cls"], parent_uid, op["name"], "group")
         wd.adopt(uid, node, "group")
+        if deferred and op.get("deferred_child", True) and "Drillhole" not in op["cls"]:
+            # the group that is not on file yet receives an ordinary child before the close writes both
+            from geoh5py.objects import Points
+
+            child = self.call("Points", Points.create, wd.ws, parent=new, name="in deferred", vertices=np.zeros((2, 3)))
+            cnode = snap_entity(child)
+            self.check_created(wd, str(child.uid), cnode, "Points", uid, "in deferred", "object")
+            wd.adopt(str(child.uid), cnode, "object")
+            self.res.label("child-of-deferred-group")
+            del child
         del new, parent
         if deferred:
             self.flush_deferred()
